@@ -76,8 +76,14 @@ def predictorValid (p : Int) : Bool :=
 
 def usingPredictor (p : Int) : Bool := p != 0 && p != Gen.filter_FlatePredictorNone
 
-/-- `validateFlateLZW(v, p, colors, bpc, columns)`; `true` = nil -/
-def validateFlateLZW (v : Nat) (p colors bpc columns : Int) : Bool :=
+/-- `predictParams(p, colors, bpc, columns)`: the defaults applied before the predictor is built -/
+def predictParams (p colors bpc columns : Int) : PParams :=
+  { colors := if colors = 0 then 1 else colors, bpc := if bpc = 0 then 8 else bpc,
+    columns := if columns = 0 then 1 else columns, predictor := if p = 0 then 1 else p }
+
+/-- the checks of `validateFlateLZW` that precede the predictor's own validation (the whole
+function before library commit 879cf71); `true` = no error so far -/
+def validateFlateLZWBase (v : Nat) (p colors bpc columns : Int) : Bool :=
   if !predictorValid p then false
   else if !usingPredictor p ∧ colors ≠ 0 then false
   else if !usingPredictor p ∧ bpc ≠ 0 then false
@@ -89,8 +95,20 @@ def validateFlateLZW (v : Nat) (p colors bpc columns : Int) : Bool :=
     else true
   else true
 
+/-- `validateFlateLZW(v, p, colors, bpc, columns)`; `true` = nil.  Since 879cf71 the function ends,
+inside `if usingPredictor`, with `predictParams(p, colors, bpc, columns).Validate()`: parameters that
+pass validation are accepted by the predictor (and hence by `Encode`). -/
+def validateFlateLZW (v : Nat) (p colors bpc columns : Int) : Bool :=
+  validateFlateLZWBase v p colors bpc columns &&
+    (!usingPredictor p || (predictParams p colors bpc columns).validate)
+
+def FFlate.validateBase (f : FFlate) (v : Nat) : Bool :=
+  if v < Gen.meta_V1_2 then false else validateFlateLZWBase v f.predictor f.colors f.bpc f.columns
+
 def FFlate.validate (f : FFlate) (v : Nat) : Bool :=
   if v < Gen.meta_V1_2 then false else validateFlateLZW v f.predictor f.colors f.bpc f.columns
+
+def FLZW.validateBase (f : FLZW) (v : Nat) : Bool := validateFlateLZWBase v f.predictor f.colors f.bpc f.columns
 
 def FLZW.validate (f : FLZW) (v : Nat) : Bool := validateFlateLZW v f.predictor f.colors f.bpc f.columns
 
@@ -144,11 +162,6 @@ def parseLZW (d : Dict) : FLZW :=
   let f := parseFlate d
   let obo := match getInt d kEarlyChange with | some 0 => false | _ => true
   ⟨f.predictor, f.colors, f.bpc, f.columns, obo⟩
-
-/-- `predictParams` -/
-def predictParams (p colors bpc columns : Int) : PParams :=
-  { colors := if colors = 0 then 1 else colors, bpc := if bpc = 0 then 8 else bpc,
-    columns := if columns = 0 then 1 else columns, predictor := if p = 0 then 1 else p }
 
 def FFlate.pparams (f : FFlate) : PParams := predictParams f.predictor f.colors f.bpc f.columns
 
